@@ -129,6 +129,8 @@ class Rollout(Unit):
     def configs(self):
         yield "carry_only", dict(carry=True)
         yield "trajectory", dict(carry=False)
+        yield "carry_only,max_steps=None", dict(carry=True, default_n=True)
+        yield "trajectory,max_steps=None", dict(carry=False, default_n=True)
 
     def summaries(self, cfg):
         s = api_summaries()
@@ -162,7 +164,12 @@ class Rollout(Unit):
         gs = z3.Const("gs", Leaf)
         n = z3.Int("n")
         ctx.require(n >= 0)
-        ret = ctx.call(self_obj=g, args=[gs], kwargs=dict(max_steps=n, carry_only=ctx.cfg["carry"]))
+        if ctx.cfg.get("default_n"):      # max_steps=None: the graph's own episode length
+            ctx.require(g.f["max_steps"] >= 0)
+            ret = ctx.call(self_obj=g, args=[gs], kwargs=dict(max_steps=None, carry_only=ctx.cfg["carry"]))
+            n = g.f["max_steps"]
+        else:
+            ret = ctx.call(self_obj=g, args=[gs], kwargs=dict(max_steps=n, carry_only=ctx.cfg["carry"]))
         start = REPL_STEP(REPL_EPS(gs))
         run = lambda x: RS(RUS(x), NONE, NONE)
         if ctx.cfg["carry"]:
@@ -361,3 +368,131 @@ class GraphInit(Unit):
 
 
 UNITS.append(GraphInit())
+
+
+# =========================================================================================== Graph.init_record
+class _Filled:
+    """contract-level value: an array of the given shape filled with one value (what jnp.ones(shape) * v is)"""
+    def __init__(self, shape, val):
+        self.shape, self.val = tuple(shape), val
+
+    def pyvc_binop(self, ex, op, other, reflected):
+        import ast as _ast
+        if isinstance(op, _ast.Mult) and isinstance(other, (int, float)):
+            return _Filled(self.shape, self.val * other)
+        raise V.Unsupported("operator on a filled array")
+
+    def pyvc_getattr(self, ex, attr):
+        if attr == "astype":
+            return lambda ex_, d=None: self
+        if attr == "shape":
+            return self.shape
+        raise V.Unsupported(f"filled array attribute {attr}")
+
+
+class _RunVec:
+    """contract-level value: the per-episode number of executions summed over a set of slots (slot.run.sum(axis=-1) and sums thereof)"""
+    def __init__(self, slots):
+        self.slots = tuple(slots)
+
+    def pyvc_binop(self, ex, op, other, reflected):
+        import ast as _ast
+        if isinstance(op, _ast.Add) and isinstance(other, _RunVec):
+            return _RunVec(self.slots + other.slots)
+        raise V.Unsupported("operator on run counts")
+
+
+def max_runs(slots):
+    return z3.Int("max_over_episodes_of_runs[" + "+".join(sorted(slots)) + "]")
+
+
+class InitRecord(Unit):
+    """the pre-sized record: one row per possible execution of the node (maximum over episodes of its slots' run counts, all of its slots and only those),
+    every row of every column marked -1; switched-off columns absent; nothing of the graph state changes except aux['record']"""
+    name = "Graph.init_record"
+    target = f"{GR}::Graph.init_record"
+    props = ("C13",)
+
+    def configs(self):
+        yield "all on", dict(flags={f: True for f in ("params", "rng", "inputs", "state", "output")})
+        yield "defaults (all off)", dict(flags={})
+        for f in ("params", "rng", "inputs", "state", "output"):
+            yield f"only {f}", dict(flags={f: True})
+        yield "per-node dict", dict(flags={"state": {"a": True}, "output": {"sup": True, "a": False}})
+        yield "already initialised", dict(flags={}, already=True)
+
+    def opts(self, cfg):
+        return {"leaf_attr": lambda ex, o, attr: (z3.Function("shape_of", Leaf, Leaf)(o) if attr == "shape" else z3.Function("dtype_of", Leaf, Leaf)(o) if attr == "dtype" else None),
+                "leaf_getitem": lambda ex, o, i: z3.Function("row_of", Leaf, z3.IntSort(), Leaf)(o, toz(i)),
+                "leaf_binop": lambda ex, op, x, y: (tuple(x) + (y,)) if isinstance(x, tuple) and type(op).__name__ == "Add" else None}      # (rows,) + x.shape
+
+    def run(self, ctx):
+        ex, cfg = ctx.ex, ctx.cfg
+        mkslot = lambda nm, kind: Rec("SlotVertex", dict(kind=kind, run=Rec("ndarray", dict(sum=lambda ex_, axis=None: _RunVec([nm])), module=None)), module=BASE, frozen=True)
+        slots = {"sa_0": mkslot("sa_0", "a"), "ssup_0": mkslot("ssup_0", "sup"), "sa_1": mkslot("sa_1", "a")}
+        a = Rec("BaseNode", dict(name="a", info=leaf_("info.a"), inputs={}), module=None)
+        sup = Rec("BaseNode", dict(name="sup", info=leaf_("info.sup"), inputs={}), module=None)
+        sup.f["inputs"]["a_in"] = Rec("Connection", dict(output_node=a, input_node=sup), module=None)
+        g = Rec("Graph", dict(supervisor=sup, nodes={"a": a, "sup": sup}, _timings=Rec("Timings", dict(slots=slots), module=BASE, frozen=True)), module=GR)
+        per = lambda tag: {k: leaf_(f"{tag}.{k}") for k in ("a", "sup")}
+        aux0 = {"other": leaf_("aux.other")}
+        if cfg.get("already"):
+            aux0["record"] = leaf_("old.record")
+        gs = Rec("GraphState", dict(step=z3.Int("gs.step"), eps=z3.Int("gs.eps"), rng=per("rng"), seq=per("seq"), ts=per("ts"), params=per("params"), state=per("state"), inputs=per("inputs"),
+                                    timings_eps=leaf_("timings_eps"), buffer=per("buffer"), aux=aux0), module=BASE, frozen=True)
+        onp, jnp, jx = ex.lib.ns["numpy"], ex.lib.ns["jax.numpy"], ex.lib.ns["jax"]
+        o_zl, o_max, o_ones = onp.entries["zeros_like"], onp.entries["max"], jnp.entries["ones"]
+        onp.entries["zeros_like"] = lambda ex_, x: _RunVec([]) if isinstance(x, _RunVec) else o_zl(ex_, x)
+        onp.entries["max"] = lambda ex_, x, **k: max_runs(x.slots) if isinstance(x, _RunVec) else o_max(ex_, x, **k)
+
+        def ones(ex_, shape=(), **k):
+            if isinstance(shape, tuple):
+                return _Filled(shape, 1)
+            return o_ones(ex_, shape, **k)
+        jnp.entries["ones"] = ones
+        jx.entries["dtypes"] = NS("jax.dtypes", {"canonicalize_dtype": lambda ex_, d: d})
+        try:
+            try:
+                ret = ctx.call(self_obj=g, args=[gs], kwargs=dict(cfg["flags"]))
+            except RaiseEx as e:
+                ctx.ensure("a second init_record on the same graph state is refused (AssertionError), nothing else raises", z3.BoolVal(bool(cfg.get("already")) and e.exc == "AssertionError"))
+                return
+        finally:
+            onp.entries["zeros_like"], onp.entries["max"], jnp.entries["ones"] = o_zl, o_max, o_ones
+        ctx.ensure("a second init_record on the same graph state is refused", z3.BoolVal(not cfg.get("already")))
+        ctx.ensure("C13 enabling recording changes nothing of the graph state except aux['record'] (every other field and every other aux entry is the very same object)",
+                   z3.BoolVal(isinstance(ret, Rec) and all(ret.f[k] is gs.f[k] for k in gs.f if k != "aux") and set(ret.f["aux"]) == {"other", "record"} and ret.f["aux"]["other"] is aux0["other"] and "record" not in aux0))
+        rec = ret.f["aux"]["record"]
+        want_rows = {"a": max_runs(["sa_0", "sa_1"]), "sup": max_runs(["ssup_0"])}
+        on = lambda f, nm: (cfg["flags"].get(f, False) if not isinstance(cfg["flags"].get(f, False), dict) else cfg["flags"][f].get(nm, False))
+        cl, cl_off = [], []
+        for nm in ("a", "sup"):
+            nr = rec.f["nodes"][nm]
+            st = nr.f["steps"]
+            for fld in ("eps", "seq", "ts_start", "ts_end", "delay"):
+                v = st.f[fld]
+                cl.append(z3.BoolVal(isinstance(v, _Filled) and len(v.shape) == 1 and v.val == -1))
+                if isinstance(v, _Filled):
+                    cl.append(toz(v.shape[0]) == want_rows[nm])
+            src = {"rng": gs.f["rng"][nm], "inputs": gs.f["inputs"][nm], "state": gs.f["state"][nm], "output": z3.Function("row_of", Leaf, z3.IntSort(), Leaf)(gs.f["buffer"][nm], z3.IntVal(0))}
+            for fld in ("rng", "inputs", "state", "output"):
+                v = st.f[fld]
+                if not on(fld, nm):
+                    cl_off.append(z3.BoolVal(v is None))
+                    continue
+                ok = isinstance(v, _Filled) and v.val == -1 and len(v.shape) == 2
+                cl.append(z3.BoolVal(ok))
+                if ok:       # shape = (rows,) + shape of one row of that node's rng / inputs / state / output
+                    cl.append(z3.And(toz(v.shape[0]) == want_rows[nm], toz(v.shape[1]) == z3.Function("shape_of", Leaf, Leaf)(src[fld])))
+            cl_off.append(z3.BoolVal((nr.f["params"] is gs.f["params"][nm]) if on("params", nm) else nr.f["params"] is None))
+            cl.append(z3.BoolVal(nr.f["info"] is (a if nm == "a" else sup).f["info"]))
+        ctx.ensure("C13 every column of every node's record has one row per possible execution of THAT node (max over episodes of the runs of all its slots and only its slots) "
+                   "and every row is marked -1 (never-executed rows stay recognisable)", z3.And(*cl))
+        ctx.ensure("C13 switched-off columns are absent, params are recorded iff requested (per node)", z3.And(*cl_off))
+
+
+def leaf_(tag):
+    return z3.Const(tag, Leaf)
+
+
+UNITS += [InitRecord()]
